@@ -527,7 +527,7 @@ func runExec(cfg *runCfg, prop string) error {
 				nr = 11 + r.Intn(4) // more root steps than the result channel holds
 			}
 			for k := 0; k < nr; k++ {
-				pl.Roots = append(pl.Roots, genXStep(r, &id, r.Intn(3), cfg.Tier == "thorough" || i%10 == 0))
+				pl.Roots = append(pl.Roots, genXStep(r, &id, r.Intn(3), (cfg.Tier == "thorough" && i%3 == 0) || i%10 == 0))
 			}
 			cs := &xCase{Plan: pl}
 			for k := 0; k < 3; k++ {
@@ -578,7 +578,7 @@ func runExec(cfg *runCfg, prop string) error {
 		}
 		limit := 300
 		if cfg.Tier == "thorough" {
-			limit = 1500
+			limit = 450 // (a tree of 770 nodes is a 5 MB term that takes a quarter of an hour to evaluate)
 		}
 		if counter > limit {
 			continue // keep the Coq terms small
